@@ -577,3 +577,24 @@ def np_unique(ex, args, kwargs, node):
         raise Unsupported("np.unique of an array not known to be strictly increasing")
     trusted(ex, "numpy.unique of a strictly increasing sequence is the flattened sequence itself")
     return src
+
+
+@method("Arr", "call:squeeze")
+def arr_squeeze(ex, obj, args, kwargs, node, env, fr):
+    """ndarray.squeeze(): drops axes of length 1.  Axes of symbolic length are required (obligation) not to have length 1,
+    so that the rank of the result is known."""
+    keep = []
+    for d, s in enumerate(obj.shape):
+        c = E._conc(s)
+        if c == 1:
+            continue
+        if c is None:
+            ex.oblige("squeeze_rank", to_z3(s, "int") != 1,
+                      "squeeze() keeps this axis only if its length is not 1 (a length-1 axis would silently drop a dimension)", node)
+        keep.append(d)
+    if len(keep) == obj.rank:
+        return obj
+    r = Arr.from_lambda([obj.shape[d] for d in keep], obj.kind,
+                        lambda *o: obj.sel(*[(o[keep.index(d)] if d in keep else 0) for d in range(obj.rank)]))
+    r.ghost = dict(obj.ghost)
+    return r
